@@ -264,8 +264,8 @@ let visit_cmd = function
   | [t] ->
     let n = to_node t in
     let fuel = nat_of_int (node_size n + 2) in
-    let m = (match visit_loop fuel [n] [] [] with Some (o, _) -> plist pn o | None -> "fuel") in
-    let sp = plist pn (fst (dfs_list [n] [])) in
+    let m = (match visit_loop2 fuel [n] [] [] with Some (o, _) -> plist pn o | None -> "fuel") in
+    let sp = plist pn (fst (dfs2_list [n] [])) in
     "(" ^ m ^ " " ^ sp ^ ")"
   | _ -> failwith "visit args"
 let pev (((p, f), c), fin) = "(" ^ pn p ^ " " ^ pn f ^ " " ^ pn c ^ " " ^ pb fin ^ ")"
@@ -292,6 +292,7 @@ let to_cb = function
   | L [A "list"; c] -> CList (to_nat c)
   | L [A "field"; c] -> CField (to_nat c)
   | L [A "child"; c] -> CChild (to_nat c)
+  | L [A "wrap"; c] -> CWrap (to_nat c)
   | _ -> failwith "cb"
 (* identities >= base are new: printed as n *)
 let pid base i = let k = int_of_nat i in if k >= base then "n" else string_of_int k
